@@ -77,12 +77,14 @@ class App(object):
         self.log = []
         self.unknown = []
         self._H = H
-        self._orig_open = H.HTTPClient.open
-        me = self
+        if not App._live:
+            App._orig_open = H.HTTPClient.open
 
-        def fake_open(client, url, data=None, method=None):
-            return me._upstream(url)
-        H.HTTPClient.open = fake_open
+            def fake_open(client, url, data=None, method=None):
+                return App._current._upstream(url)
+            H.HTTPClient.open = fake_open
+        App._live += 1
+        App._current = self
         try:
             pc = ProxyConfiguration(self._conf(), conf_base_dir=workdir, seed=False, renderd=False)
             self.wsgi = MapProxyApp(pc.configured_services(), pc.base_config)
@@ -91,8 +93,14 @@ class App(object):
             self.close()
             raise
 
+    _live = 0
+    _current = None
+    _orig_open = None
+
     def close(self):
-        self._H.HTTPClient.open = self._orig_open
+        App._live -= 1
+        if App._live == 0:
+            self._H.HTTPClient.open = App._orig_open
         shutil.rmtree(self.dir, ignore_errors=True)
 
     def _conf(self):
@@ -163,6 +171,7 @@ class App(object):
     def get(self, url, callback):
         del self.log[:]
         del self.unknown[:]
+        App._current = self
         env = {}
         if callback is not None:
             env['mapproxy.authorize'] = callback
